@@ -81,7 +81,7 @@ def run(module, cfg, workers=None, simulate=None, depth=None, seed=None, env=Non
 _ERR = [
     (re.compile(r"Error: Invariant (\S+) is violated"), "invariant"),
     (re.compile(r"Error: Action property (\S+) is violated"), "property"),
-    (re.compile(r"Error: Temporal properties were violated"), "liveness"),
+    (re.compile(r"Error: Temporal propert(?:y \S+ was|ies were) violated"), "liveness"),
     (re.compile(r"Error: Deadlock reached"), "deadlock"),
     (re.compile(r"Error: Postcondition (\S+)"), "postcondition"),
     (re.compile(r"Error: Evaluating (?:invariant|assumption) (\S+) failed"), "evalfail"),
